@@ -113,6 +113,98 @@ func evaluationsEndWithTheContextError(c *core.Ctx) {
 	c.Stat("arming_entry_points", n)
 }
 
+// evaluationsThatFailAskTheContextToo: the same functions ask the context for
+// its error on every path from the evaluation to a return, also where the
+// evaluation came back with an error of its own.  What a cancelled evaluation
+// fails with is often the consequence of the cancellation (a child process
+// that was killed: "signal: killed"; a server that was shut down: "http:
+// Server closed"), and the caller is owed the context's error.
+func evaluationsThatFailAskTheContextToo(c *core.Ctx) {
+	p := c.P
+	t := VMTable(p)
+	eval := p.SSAFunc(t.Eval)
+	evaluates := map[*ssa.Function]bool{eval: true}
+	for _, fn := range repoFns(p, "vm") {
+		for _, b := range fn.Blocks {
+			for _, in := range b.Instrs {
+				if call, ok := in.(*ssa.Call); ok && call.Call.StaticCallee() == eval && fn.Name() == "callFunction" {
+					evaluates[fn] = true
+				}
+			}
+		}
+	}
+	n := 0
+	for _, fn := range repoFns(p, "vm") {
+		if fn.Parent() != nil {
+			continue
+		}
+		var start, ev ssa.Instruction
+		for _, b := range fn.Blocks {
+			for _, in := range b.Instrs {
+				if call, ok := in.(*ssa.Call); ok {
+					if cal := call.Call.StaticCallee(); cal != nil {
+						if cal.Name() == "start" && cal.Signature.Recv() != nil {
+							start = in
+						}
+						if evaluates[cal] {
+							ev = in
+						}
+					}
+				}
+			}
+		}
+		if start == nil || ev == nil || !hostFacing(p, fn) {
+			continue
+		}
+		n++
+		asks := map[*ssa.BasicBlock]bool{}
+		sameBlock := false
+		for _, b := range fn.Blocks {
+			after := b != ev.Block()
+			for _, in := range b.Instrs {
+				if in == ev {
+					after = true
+					continue
+				}
+				if call, ok := in.(*ssa.Call); ok && after && call.Call.IsInvoke() && call.Call.Method.Name() == "Err" && core.IsNamed(call.Call.Value.Type(), "context", "Context") {
+					if b == ev.Block() {
+						sameBlock = true
+					} else {
+						asks[b] = true
+					}
+				}
+			}
+		}
+		escapes := false
+		if !sameBlock {
+			seen := map[*ssa.BasicBlock]bool{}
+			var walk func(b *ssa.BasicBlock)
+			walk = func(b *ssa.BasicBlock) {
+				if seen[b] || asks[b] {
+					return
+				}
+				seen[b] = true
+				for _, in := range b.Instrs {
+					if _, ok := in.(*ssa.Return); ok {
+						escapes = true
+					}
+				}
+				for _, s := range b.Succs {
+					walk(s)
+				}
+			}
+			for _, s := range ev.Block().Succs {
+				walk(s)
+			}
+		}
+		c.Check(!escapes, core.SSAName(fn)+"|context-error-asked-on-every-path-after-evaluating", p.Pos(ev.Pos()),
+			core.SSAName(fn)+" arms the VM for a context and evaluates"+ife(!escapes, "; every path from there to a return asks the context for its error", "; where the evaluation comes back with an error the function returns it without asking the context: exec(\"sleep\", [\"3\"]) under a deadline returns \"signal: killed\", not the context's error"))
+	}
+	if n < 2 {
+		core.Undecidedf("only %d functions of package vm arm the VM and evaluate", n)
+	}
+}
+
 // hostFacing: fn is an exported method, or every static caller of it is one.
 func hostFacing(p *core.Program, fn *ssa.Function) bool {
 	if fn.Object() != nil && fn.Object().Exported() {
